@@ -69,9 +69,16 @@ func genHistIndex(g *sched.Rand, primary bool) model.IndexCfg {
 		return c
 	case 2, 3:
 		return udcCfg(allKVs[g.Intn(len(allKVs))])
-	case 4:
+	case 4, 5, 6:
+		// unsafe batches: the only way a single client piles up several unpersisted segments, which is what the
+		// in-memory merge paths (several persister workers, per-worker size budgets) need in order to run at all
 		c := model.GenIndexCfg(g)
 		c.Unsafe = true
+		if g.Intn(2) == 0 {
+			c.Workers = 2 + g.Intn(3)
+			c.MaxMemMerge = 1
+			c.NapMS = []int{1, 20, 200}[g.Intn(3)]
+		}
 		return c
 	default:
 		return model.GenIndexCfg(g)
